@@ -202,7 +202,7 @@ func typeConstraint(field sql.Column) string {
 func enumTuple(e *an.Enum) string {
 	chunks := make([]string, len(e.Members))
 	for i, val := range e.Members {
-		chunks[i] = val.Const.Val().ExactString()
+		chunks[i] = gen.ConstLiteral(val.Const.Val())
 	}
 	out := fmt.Sprintf("(%s)", strings.Join(chunks, ", "))
 	return strings.ReplaceAll(out, `"`, `'`) // SQL uses single quote
